@@ -1195,7 +1195,8 @@ func (c *Ctx) c16PauseScope() {
 	if fn == nil {
 		return
 	}
-	isPause := func(in ssa.Instruction) bool {
+	var isPause InstrPred
+	isPause = func(in ssa.Instruction) bool {
 		call, ok := in.(ssa.CallInstruction)
 		if !ok || core.CalleeObj(call) == nil || core.CalleeObj(call).Name() != "ChangeStatus" {
 			return false
@@ -1225,6 +1226,39 @@ func (c *Ctx) c16PauseScope() {
 		}
 		return false, 0
 	})
+	isPauseDirect := isPause
+	isPause = func(in ssa.Instruction) bool {
+		if isPauseDirect(in) {
+			return true
+		}
+		// through a helper of the service manager that receives the event (changeStatusIfAllowed(id, event))
+		call, ok := in.(ssa.CallInstruction)
+		if !ok {
+			return false
+		}
+		g := core.StaticCallee(call)
+		if g == nil || len(g.Blocks) == 0 || core.PkgOf(g) != core.PkgOf(fn) || g == fn {
+			return false
+		}
+		changes := false
+		for _, gc := range core.Calls(g) {
+			if o := core.CalleeObj(gc); o != nil && o.Name() == "ChangeStatus" {
+				changes = true
+			}
+		}
+		if !changes {
+			return false
+		}
+		for _, a := range call.Common().Args {
+			if enumName(a) == "EventPause" || strings.HasSuffix(enumName(a), "EventPause") {
+				return true
+			}
+			if s, ok := core.ConstString(core.Strip(a)); ok && s == "pause" {
+				return true
+			}
+		}
+		return false
+	}
 	n := len(sites(fn, isPause))
 	r.Floor("R16.11", "status changes to pause in pauseService", n, 1)
 	for _, in := range sites(fn, isPause) {
